@@ -8,30 +8,46 @@ Import ListNotations.
 Local Open Scope N_scope.
 
 (* Precedence, for every registered flag and every combination of the five sources:
-   after ParseFlags with the prefixes config.Load passes, the raw value a flag's Value
-   received last is the value of the first present source in the order command line,
+   whenever ParseFlags (with the prefixes config.Load passes) succeeds, the raw value a flag's
+   Value received last is the value of the first present source in the order command line,
    FABIO_-prefixed variable, plain variable, properties file; the flag counts as set iff
    some source is present (otherwise the default stays). *)
-Theorem C15_precedence : forall flags bad args environ props calls,
+Theorem C15_precedence : forall flags bad args environ props calls rs,
   parse_args flags bad args [] = Ok calls ->
-  exists rs,
-    parse_flags flags bad args environ fabio_prefixes props = Ok rs /\
-    Forall2 (fun f r => r_name r = fname f /\
-                        final_raw r = spec_choice calls environ props (fname f) /\
-                        r_set r = is_some (final_raw r)) flags rs.
+  parse_flags flags bad args environ fabio_prefixes props = Ok rs ->
+  Forall2 (fun f r => r_name r = fname f /\
+                      final_raw r = spec_choice calls environ props (fname f) /\
+                      r_set r = is_some (final_raw r)) flags rs.
 Proof. exact precedence. Qed.
 Print Assumptions C15_precedence.
 
 (* The same for any prefix list a caller passes. *)
-Theorem C15_precedence_any_prefixes : forall flags bad args environ prefixes props calls,
+Theorem C15_precedence_any_prefixes : forall flags bad args environ prefixes props calls rs,
   parse_args flags bad args [] = Ok calls ->
-  exists rs,
-    parse_flags flags bad args environ prefixes props = Ok rs /\
-    Forall2 (fun f r => r_name r = fname f /\
-                        final_raw r = spec_choice_gen calls environ prefixes props (fname f) /\
-                        r_set r = is_some (final_raw r)) flags rs.
+  parse_flags flags bad args environ prefixes props = Ok rs ->
+  Forall2 (fun f r => r_name r = fname f /\
+                      final_raw r = spec_choice_gen calls environ prefixes props (fname f) /\
+                      r_set r = is_some (final_raw r)) flags rs.
 Proof. exact precedence_gen. Qed.
 Print Assumptions C15_precedence_any_prefixes.
+
+(* It succeeds whenever the command line parses and no chosen value is rejected by its
+   option's type; otherwise the only other outcome is the error class "value rejected". *)
+Theorem C15_parse_flags_accepts : forall flags bad args environ prefixes props calls,
+  parse_args flags bad args [] = Ok calls ->
+  (forall f v, In f flags ->
+               spec_choice_gen calls environ prefixes props (fname f) = Some v ->
+               bad (fname f) v = false) ->
+  exists rs, parse_flags flags bad args environ prefixes props = Ok rs.
+Proof. exact parse_flags_accepts. Qed.
+Print Assumptions C15_parse_flags_accepts.
+
+Theorem C15_parse_flags_verdict : forall flags bad args environ prefixes props calls,
+  parse_args flags bad args [] = Ok calls ->
+  parse_flags flags bad args environ prefixes props = Ok (visited flags calls environ prefixes props) \/
+  parse_flags flags bad args environ prefixes props = Err 1.
+Proof. exact parse_flags_verdict. Qed.
+Print Assumptions C15_parse_flags_verdict.
 
 (* Environment variable names in any letter case. *)
 Theorem C15_env_case_insensitive : forall flags bad args environ environ' prefixes props,
@@ -43,15 +59,37 @@ Print Assumptions C15_env_case_insensitive.
 
 (* Whichever single source supplies the raw value v, the option's Value.Set receives
    exactly v and the option counts as set. *)
-Theorem C15_source_equivalence : forall flags bad args environ props calls k v f,
+Theorem C15_source_equivalence : forall flags bad args environ props calls rs k v f,
   parse_args flags bad args [] = Ok calls ->
+  parse_flags flags bad args environ fabio_prefixes props = Ok rs ->
   In f flags -> In k [1; 2; 3; 4] ->
   only_source calls environ props (fname f) k v ->
-  exists rs r,
-    parse_flags flags bad args environ fabio_prefixes props = Ok rs /\ In r rs /\
-    r_name r = fname f /\ final_raw r = Some v /\ r_set r = true.
+  exists r, In r rs /\ r_name r = fname f /\ final_raw r = Some v /\ r_set r = true.
 Proof. exact source_equivalence. Qed.
 Print Assumptions C15_source_equivalence.
+
+(* The same verdict from every source for EVERY raw value, well-formed for the option's type
+   or not: "-name=v" on the command line is accepted iff the type accepts v, and so is v given
+   by the FABIO_ variable, the plain variable or the properties file alone (k = 2, 3, 4). *)
+Theorem C15_same_verdict_every_source : forall bad name isbool v environ props k,
+  plain_name name ->
+  In k [2; 3; 4] ->
+  only_source [] environ props name k v ->
+  let f := {| fname := name; fbool := isbool |} in
+  is_ok (parse_flags [f] bad [45 :: name ++ 61 :: v] [] fabio_prefixes None) = negb (bad name v) /\
+  is_ok (parse_flags [f] bad [] environ fabio_prefixes props) = negb (bad name v).
+Proof. exact same_verdict_every_source. Qed.
+Print Assumptions C15_same_verdict_every_source.
+
+Theorem C15_same_verdict_nonvacuous :
+  plain_name (bs "proxy.maxconn") /\
+  only_source [] [bs "Fabio_Proxy_MaxConn=abc"] None (bs "proxy.maxconn") 2 (bs "abc") /\
+  only_source [] [bs "proxy_maxconn=abc"] None (bs "proxy.maxconn") 3 (bs "abc") /\
+  only_source [] [] (Some [(bs "proxy.maxconn", bs "abc")]) (bs "proxy.maxconn") 4 (bs "abc") /\
+  parse_flags maxconn_flags abc_is_bad [] [bs "FABIO_PROXY_MAXCONN=abc"] fabio_prefixes None = Err 1 /\
+  parse_flags maxconn_flags abc_is_bad [bs "-proxy.maxconn=abc"] [] fabio_prefixes None = Err 1.
+Proof. exact same_verdict_nonvacuous. Qed.
+Print Assumptions C15_same_verdict_nonvacuous.
 
 (* Never a panic: ParseFlags returns results or an error for every argument list, every
    environment block (entries without '=' included), every prefix list and properties map. *)
@@ -159,7 +197,7 @@ Print Assumptions C15_globcache_not_runnable_outside_domain.
 (* Degenerate option values (empty, blanks, separators or quotes only, arbitrary bytes,
    malformed numbers ...), as far as the model carries load(): ParseFlags never panics
    whatever the raw values and whatever the typed values reject (C15_never_panics, for every
-   [bad]); parseKVSlice never panics (C15_kvslice_never_panics) and returns no map for
+   [bad]; a rejected value is an error from every source, C15_same_verdict_every_source); parseKVSlice never panics (C15_kvslice_never_panics) and returns no map for
    separators-only input; the ui.addr block of load() then returns the "only one listener"
    error and never indexes the empty list.  The rest of load()'s post-processing (parseListen,
    parseCertSource, go-sockaddr templates, regexp.Compile, strconv in the typed values) is
@@ -180,16 +218,17 @@ Proof.
 Qed.
 Print Assumptions C15_load_never_panics_on_degenerate_values.
 
-(* Finding F-C15-3 (open): for a raw value the option's type rejects, the verdict depends on
-   the source -- the command line fails (usage error), the environment and the file call
-   Value.Set, drop its error (flagset.go:134,145), leave in the option whatever the failed Set
-   left (the zero value for the stdlib types) and count the option as set.  Witness: proxy.maxconn = abc.  Outside that region (every value the command line
-   carries is accepted: parse_args = Ok) C15_source_equivalence holds. *)
+(* Repaired in /repo by 12b472e (finding F-C15-3).  Before the fix ParseFlags dropped the error
+   of f.Set for environment and file values ([parse_flags_set_error_dropped]): a raw value the
+   option's type rejects failed on the command line (usage error) but from the environment and
+   the file it was applied as far as the failed Set applies it, the option counted as set and
+   ParseFlags returned nil.  Witness: proxy.maxconn = abc.  The repaired model gives every
+   source the same verdict for every raw value: C15_same_verdict_every_source. *)
 Theorem C15_illformed_value_source_dependent_refuted :
-  parse_flags maxconn_flags abc_is_bad [bs "-proxy.maxconn=abc"] [] fabio_prefixes None = Err 1 /\
-  parse_flags maxconn_flags abc_is_bad [] [bs "FABIO_PROXY_MAXCONN=abc"] fabio_prefixes None
+  parse_flags_set_error_dropped maxconn_flags abc_is_bad [bs "-proxy.maxconn=abc"] [] fabio_prefixes None = Err 1 /\
+  parse_flags_set_error_dropped maxconn_flags abc_is_bad [] [bs "FABIO_PROXY_MAXCONN=abc"] fabio_prefixes None
   = Ok [{| r_name := bs "proxy.maxconn"; r_set := true; r_calls := [bs "abc"]; r_src := SrcEnv 0 |}] /\
-  parse_flags maxconn_flags abc_is_bad [] [] fabio_prefixes (Some [(bs "proxy.maxconn", bs "abc")])
+  parse_flags_set_error_dropped maxconn_flags abc_is_bad [] [] fabio_prefixes (Some [(bs "proxy.maxconn", bs "abc")])
   = Ok [{| r_name := bs "proxy.maxconn"; r_set := true; r_calls := [bs "abc"]; r_src := SrcProps |}].
 Proof. exact illformed_value_source_dependent. Qed.
 Print Assumptions C15_illformed_value_source_dependent_refuted.
